@@ -211,6 +211,20 @@ PROPS["C01"] = {
     "assumptions": ["valid files: column lengths agree, string references in range, tag keys never string 0", "timestamps within the int64 nanosecond range"],
 }
 
+PROPS["C08"] = {
+    "props": ["OsmVerif.Props.C08"],
+    "gens": ["Pbf"],
+    "model_is_spec": ["filt "],
+    "required_theorems": ["reuses_eq", "skip_guards", "reuse_is_fresh", "mergeWay_fresh", "mergeRel_fresh", "mergeNode_fresh",
+                          "scanGroup_eq_filter", "scanBlock_eq_filter", "scanBlock_sublist"],
+    "technique": "Lean 4 model of scanPrimitiveGroup / extractDenseNodes with one accumulator per element kind, the accept/reject statements read from the source and interpreted; theorems: a reused accumulator is indistinguishable from a new one, a message on a fresh accumulator is the decoded element, hence for every selection (skip flags x arbitrary predicates) and every valid block the scan is the filter of the unfiltered decode (a subsequence of unmodified elements); the executable model, the real scanner and the filter of the real unfiltered scan compared on generated files; snapshots of returned objects compared at the end of the scan",
+    "level_text": "Machine-checked proof: for all predicates and all 8 skip-flag combinations, every valid block, scanBlock (the model of the decoder loop with accumulator reuse, driven by the replacement and overwrite literals regenerated from the source) equals the filter of decodeBlock - in particular a sublist of it with unchanged elements. Correspondence: generated files scanned by the real scanner under skip flags and deterministic predicates with 1..8 decoders, compared with the model and with the filter of the scanner's own unfiltered result. Aliasing (memory of rejected elements reused while returned objects are retained) is outside a value-level model: every returned object is snapshotted when Scan returns it and compared again after the scan ended.",
+    "level_note": "Trusted: Lean kernel; the fact extractor; the interpretation of composite literals in Model/PbfScan.lean; Go slice aliasing is observed at run time only (snapshots), not proved.",
+    "design_ref": "DESIGN.md §5 C08",
+    "trusted_base": ["protoscan / protobuf wire decoding", "harness protobuf writer harness/pbfgen.go"],
+    "assumptions": ["valid files", "filter callbacks are pure functions of the element"],
+}
+
 NOT_APPLICABLE = {pid: "check not built yet in this session (planned, see DESIGN.md §9); no claim is made" for pid in
                   ["C%02d" % i for i in range(1, 21)] if pid not in PROPS}
 
